@@ -35,29 +35,38 @@ def gen():
     # --- unescape / unescape_cow / unescape_slow / check_str_len
     for fn_, conv in (("unescape", "Ok(data.to_owned())"), ("unescape_cow", "Ok(Cow::Borrowed(data))")):
         b = norm_ws(F.fn_body(ts, fn_, rel))
-        tail = "unescape_slow(data)" if fn_ == "unescape" else "unescape_slow(data).map(|s|Cow::Owned(s))"
-        # F.strip_comments brings `if !c {A} else {B}` to `if c {B} else {A}`
-        if not F.same_shape(F.fn_body(ts, fn_, rel), "check_str_len(data)?;ifUNICODE_LITERAL.is_match(data){%s}else{%s}" % (tail, conv)):
+        tails = ["unescape_slow(data)"] if fn_ == "unescape" else ["unescape_slow(data).map(|s| Cow::Owned(s))", "unescape_slow(data).map(Cow::Owned)"]
+        # F.strip_comments brings `if !c {A} else {B}` to `if c {B} else {A}`: either orientation is read alike
+        if SA.alpha_any(F.fn_body(ts, fn_, rel), ["check_str_len(data)?; if UNICODE_LITERAL.is_match(data) { %s } else { %s }" % (tl, conv) for tl in tails]) < 0:
             raise F.FactError("%s changed shape: %r" % (fn_, b))
     # unescape_slow: the text between the matches is copied, every match is decoded as a hexadecimal scalar value and pushed,
     # a value that is no char (or no number) is InvalidCharLiteral(digits).  The decoding statement may be spelled with nested
     # matches, with `.ok().and_then(char::from_u32)` and one match / if-let, or with `ok_or_else(..)?`; bound names are free.
     b = norm_ws(F.fn_body(ts, "unescape_slow", rel))
-    pre = ("let mut result = String::with_capacity(original.len()); let mut start = 0; for c in UNICODE_LITERAL.captures_iter(original) {"
-           " let whole = c.get(0).unwrap(); let braces = c.get(1).or_else(|| c.get(2)).unwrap(); result.push_str(&original[start..whole.start()]); ")
+    head = ("let mut result = String::with_capacity(original.len()); let mut start = 0; for c in UNICODE_LITERAL.captures_iter(original) {"
+            " let whole = c.get(0).unwrap(); ")
+    push = " result.push_str(&original[start..whole.start()]); "
     post = " start = whole.end(); } result.push_str(&original[start..]); Ok(result)"
-    err = "Err(BuildFailure::InvalidCharLiteral(braces.as_str().to_owned()))"
-    dec = "u32::from_str_radix(braces.as_str(), 16)"
-    decode = [
-        "match %s { Ok(v) => match char::from_u32(v) { Some(cx) => result.push(cx), None => return %s, }, Err(_) => return %s, }" % (dec, err, err),
-        "let decoded = %s.ok().and_then(char::from_u32); match decoded { Some(cx) => result.push(cx), None => return %s, }" % (dec, err),
-        "let decoded = %s.ok().and_then(|v| char::from_u32(v)); match decoded { Some(cx) => result.push(cx), None => return %s, }" % (dec, err),
-        "match %s.ok().and_then(char::from_u32) { Some(cx) => result.push(cx), None => return %s, }" % (dec, err),
-        "match %s.ok().and_then(|v| char::from_u32(v)) { Some(cx) => result.push(cx), None => return %s, }" % (dec, err),
-        "if let Some(cx) = %s.ok().and_then(char::from_u32) { result.push(cx); } else { return %s; }" % (dec, err),
-        "let cx = %s.ok().and_then(char::from_u32).ok_or_else(|| BuildFailure::InvalidCharLiteral(braces.as_str().to_owned()))?; result.push(cx);" % dec,
-    ]
-    if SA.alpha_any(F.fn_body(ts, "unescape_slow", rel), [pre + d + post for d in decode]) < 0:
+    shapes = []
+    # the digits: the capture (read with .as_str() where used) or its text bound at once
+    for bind, dg in (("let braces = c.get(1).or_else(|| c.get(2)).unwrap();", "braces.as_str()"),
+                     ("let braces = c.get(1).or_else(|| c.get(2)).unwrap().as_str();", "braces")):
+        err = "Err(BuildFailure::InvalidCharLiteral(%s.to_owned()))" % dg
+        dec = "u32::from_str_radix(%s, 16)" % dg
+        orelse = "ok_or_else(|| BuildFailure::InvalidCharLiteral(%s.to_owned()))?" % dg
+        decode = [
+            "match %s { Ok(v) => match char::from_u32(v) { Some(cx) => result.push(cx), None => return %s, }, Err(_) => return %s, }" % (dec, err, err),
+            "let decoded = %s.ok().and_then(char::from_u32); match decoded { Some(cx) => result.push(cx), None => return %s, }" % (dec, err),
+            "let decoded = %s.ok().and_then(|v| char::from_u32(v)); match decoded { Some(cx) => result.push(cx), None => return %s, }" % (dec, err),
+            "match %s.ok().and_then(char::from_u32) { Some(cx) => result.push(cx), None => return %s, }" % (dec, err),
+            "match %s.ok().and_then(|v| char::from_u32(v)) { Some(cx) => result.push(cx), None => return %s, }" % (dec, err),
+            "if let Some(cx) = %s.ok().and_then(char::from_u32) { result.push(cx); } else { return %s; }" % (dec, err),
+            "let cx = %s.ok().and_then(char::from_u32).%s; result.push(cx);" % (dec, orelse),
+            "let cx = %s.ok().and_then(|v| char::from_u32(v)).%s; result.push(cx);" % (dec, orelse),
+            "result.push(%s.ok().and_then(char::from_u32).%s);" % (dec, orelse),
+        ]
+        shapes += [head + bind + push + d + post for d in decode]
+    if SA.alpha_any(F.fn_body(ts, "unescape_slow", rel), shapes) < 0:
         raise F.FactError("unescape_slow changed shape: %r" % b)
     b = norm_ws(F.fn_body(ts, "check_str_len", rel))
     m = re.fullmatch(r"ifdata\.len\(\)(>=|>)MAX_DIC_STRING_LEN\{Err\(BuildFailure::InvalidSize\{expected:MAX_DIC_STRING_LEN,actual:data\.len\(\),\}\)\}else\{Ok\(\(\)\)\}", b)
